@@ -28,6 +28,6 @@ CONSTANTS
   PREDEL = 0
   EVENTS = {"Deposit","Withdraw","Delegate","Undelegate","Associate","Dissociate","Slash","NstUpdate","ReleaseHold","EndBlock"}
   FAILBUDGET = 99
-VIEW View
+VIEW ViewG
 INVARIANTS InvAtomic
 CHECK_DEADLOCK FALSE
